@@ -116,7 +116,6 @@ func strList(l []string) string {
 	}
 	return "[" + strings.Join(it, ";") + "]"
 }
-func coqStr(s string) string { return "\"" + strings.ReplaceAll(s, "\"", "\"\"") + "\"" }
 func (i dInfo) term() string {
 	return fmt.Sprintf("(I %s %d %s %d %s %s %s)", coqStr(i.Name), i.ID, coqStr(i.Machine), i.Pid, strList(i.Endpoints), coqStr(i.Session), coqStr(i.UID))
 }
